@@ -52,7 +52,9 @@ def default_kills(stmt, fact_text):
 
 def _mentions(text, name):
     import re
-    return re.search(r"(?<![\w.])" + re.escape(name) + r"(?![\w])", text) is not None
+    # names inside string literals do not count
+    bare = re.sub(r"'(?:[^'\\]|\\.)*'|\"(?:[^\"\\]|\\.)*\"", "''", text)
+    return re.search(r"(?<![\w.])" + re.escape(name) + r"(?![\w])", bare) is not None
 
 
 def must_facts(cfg, kills=default_kills, initial=frozenset()):
